@@ -393,7 +393,7 @@ def check_cached(cx, chk):
         evs = templates.events(cx, cg, b)
         for ev in evs:
             if ev["kind"] == "ident" and ev.get("text") == "CacheEntries":
-                sites["declares the cache field"] = (p, b, flags_guarding(b, ev["bb"]))
+                sites["declares the cache field"] = (p, b, flags_guarding_ip(cx, cg, p, b, ev["bb"]))
         # (2) memo body: emission of `cache_key`
             if ev["kind"] == "ident" and ev.get("text") == "cache_key" and "emits the cache lookup" not in sites:
                 pass
@@ -431,6 +431,28 @@ def check_cached(cx, chk):
                               "the site that %s decides on {%s} while the others decide on {memoize, left_recursive}: a @leftrec rule "
                               "compiled with a derive set lacking Clone is accepted and its generated `.clone()` calls do not compile"
                               % (k, ", ".join(sorted(s))), cx.site(b))
+
+
+def flags_guarding_ip(cx, cg, p, b, bb):
+    """flags_guarding, looking through a helper: when nothing inside the function decides, the flags that guard every call of it."""
+    r = flags_guarding(b, bb)
+    if r:
+        return r
+    sets = []
+    for q, f in cg.fns.items():
+        if "mir" not in f or "::grammar::generated::" in q:
+            continue
+        qb = cx.body(cg, q)
+        for i, t in qb.calls():
+            fq = t["func"]
+            if not fq.get("indirect") and (fq.get("resolved") or fq["path"]) == p:
+                sets.append(flags_guarding(qb, i))
+    if not sets:
+        return r
+    out = set(sets[0])
+    for s_ in sets[1:]:
+        out &= s_
+    return out
 
 
 def flags_guarding(b, bb):
@@ -606,6 +628,11 @@ def check_ident(cx, chk):
         prefix = ""
         if tmpl and tmpl[0] < 0x80:
             prefix = tmpl[1:1 + tmpl[0]].decode("utf-8", "replace")
+        if not prefix:
+            # a constant name without interpolation (`format_ident!("helper")`, `Ident::new("x", span)`)
+            consts = [s_[2] for s_ in walk(e) if s_[0] == "const" and s_[1] == "str" and isinstance(s_[2], str)]
+            if len(consts) == 1 and re.match(r"^[A-Za-z_][A-Za-z0-9_]*$", consts[0]) and not any(is_call(s_, "new_display", "new_debug") for s_ in walk(e)):
+                prefix = consts[0]
         # a literal prefix that starts an identifier + interpolations made of identifier characters (AST `Identifier`
         # fields are {IdentifierChar}+ over [A-Za-z0-9_]; enumerate() indices are digits) cannot be rejected by Ident::new
         srcs_ok = all((a_[0] == "field" and a_[2] in ("name", "typ", "rule", "0")) or a_[0] in ("param", "upvar") or a_[0] == "agg"
